@@ -820,6 +820,20 @@ func vfGenTargets(t *rapid.T, max int) []string {
 // vfFreeSpec draws a spec that does not conflict with the model (construction, bounded retries, then a
 // unique fallback host).
 func vfFreeSpec(t *rapid.T, m *vfModel, name string) vfSvcSpec {
+	// a companion: below a path of the hosts of a service that has TLS on (its TLS settings then follow that service)
+	var roots []*vfMSvc
+	for _, n := range vfSortedKeys(m.Svcs) {
+		if o := m.Svcs[n]; n != name && o.Opt.TLS != 0 && len(o.Spec.Hosts) > 0 {
+			roots = append(roots, o)
+		}
+	}
+	if len(roots) > 0 && rapid.IntRange(0, 2).Draw(t, "companion") == 0 {
+		root := rapid.SampledFrom(roots).Draw(t, "companion-of")
+		s := vfSvcSpec{Name: name, Hosts: append([]string(nil), root.Spec.Hosts...), Prefixes: []string{rapid.SampledFrom([]string{"/api", "/app", "/api/v1"}).Draw(t, "companion-prefix")}}
+		if !vfConflict(m.specs(), s) {
+			return s
+		}
+	}
 	for i := 0; i < 4; i++ {
 		s := vfGenSpec(t, name)
 		if !vfConflict(m.specs(), s) {
